@@ -93,9 +93,10 @@ def tlsgateOp (toks : List String) : String :=
     let up := tr.contains .tlsUp
     let cred := tr.any (·.credentialBearing)
     let okc := up   -- with a server that lets every later phase succeed
-    let model := "tls=" ++ (if up then "up" else "refused") ++ " cred=" ++ (if cred then "1" else "0") ++ " connect=" ++ (if okc then "ok" else "E")
+    let req := Secrets.negotiationRequest ⟨b "nla", b "ra", false, false⟩
+    let model := "tls=" ++ (if up then "up" else "refused") ++ " cred=" ++ (if cred then "1" else "0") ++ " connect=" ++ (if okc then "ok" else "E") ++ " req=" ++ toHex req
     -- property: with checking on, an untrusted certificate ends the connection before any credential-bearing message
-    let oracle := if b "check" then "tls=refused cred=0 connect=E" else "-"
+    let oracle := if b "check" then "tls=refused cred=0 connect=E req=*" else "-"
     model ++ "\t" ++ oracle
   | none => "bad-case"
 
